@@ -819,6 +819,19 @@ func (e *Enc) evalCall(sc *Scope, n *CCall, hint types.Type) Val {
 				panic(unsupported("sameArray needs two slices"))
 			}
 			return Val{Typ: types.Typ[types.Bool], L: []T{And(Eq(a.L[0], b.L[0]), Not(Eq(a.L[0], IntLit64(IntS, 0))))}}
+		case "fresh":
+			// fresh(x): the slice / pointer / map x is nil or was allocated by the function under
+			// contract (its reference is not below the allocation frontier at function entry)
+			a := e.eval(sc, n.Args[0], nil)
+			switch a.Typ.Underlying().(type) {
+			case *types.Slice, *types.Pointer, *types.Map:
+			default:
+				panic(unsupported("fresh needs a slice, pointer or map"))
+			}
+			top0 := e.epochGet(e.ep0, "!top", IntS)
+			cur := e.heapGet(sc.st, "!top", IntS)
+			r := a.L[0]
+			return Val{Typ: types.Typ[types.Bool], L: []T{Or(Eq(r, IntLit64(IntS, 0)), And(T{BoolS, app("<=", top0.E, r.E)}, T{BoolS, app("<", r.E, cur.E)}))}}
 		case "called":
 			// called(Name): a function or method with this name was called on the current path
 			// since the region (loop iteration / function) was entered
